@@ -568,6 +568,14 @@ def work_c12(prop, tier, seed, widx, nworkers):
         if 'Fatal' in seqn and kind in ('oneof', 'rec', 'recout', 'recstart', 'oneof_shared'):
             kind = 'chain'
         prog = carrier(kind, cfg, seqn, mode, sib)
+        if rng.random() < 0.25 and prog['nodes']['X'].get('params'):
+            # the retried node declares a parameter whose name is also a local name inside the engine's retry code
+            prog['nodes']['X']['params'][0][0] = rng.choice(['error', 'exc', 'attempts', 'delay', 'result', 'retry_policy'])
+            acc.counters['odd_param_name_carriers'] = acc.counters.get('odd_param_name_carriers', 0) + 1
+        if rng.random() < 0.2 and prog['nodes']['X'].get('kind', 'plain') == 'plain' and prog['nodes']['X'].get('params'):
+            # the retried node is a build_node() derivative whose retry settings come from attrs=...
+            gen.add_generics(prog, rng, p=1.0, only='X')
+            acc.counters['generic_retry_carriers'] = acc.counters.get('generic_retry_carriers', 0) + 1
         acc.programs += 1
         built = harness.Built(prog)
         for s in range(nsched):
